@@ -33,7 +33,10 @@ def main():
             mod = importlib.import_module(m)
             res = mod.emit(ctx)
         except Exception:
+            # the anchors of this generator can no longer be read from the source: the committed (pinned) generated
+            # file stays in place and the values are carried by the correspondence alone (DESIGN.md 4.1 item 3)
             errors.append({"generator": m, "error": traceback.format_exc()})
+            ctx.lost("generator:%s" % m)
             continue
         for name, text in res.items():
             path = os.path.join(GEN_DIR, name)
@@ -47,7 +50,9 @@ def main():
                     f.write(text)
                 changed.append(name)
     print(json.dumps({"changed": changed, "anchor_lost": ctx.anchor_lost, "files": files, "errors": errors}))
-    return 2 if errors else 0
+    # a generator that cannot read a *changed* source is a lost anchor, not a fault; it is a fault (exit 2) only
+    # when nothing at all could be generated
+    return 2 if errors and not files else 0
 
 
 if __name__ == "__main__":
